@@ -5,6 +5,8 @@ from pathsym import loader, symnp
 
 def pytest_configure(config):
     symnp.install_imports()
+    from pathsym import symre
+    symre.install()
     loader.install()
 
 
